@@ -211,6 +211,7 @@ def run_concat(case, rec):
             rec.fail("C11.invalid-file", op="concat:" + variant, cls="file", attr="unreadable", detail=f"{type(exc).__name__}: {exc}")
             return
         writes_after_close(rec, held, "concat:" + variant)
+        old_hole = next((h for h in held if hasattr(h, "surveys")), None)
         del held
         try:
             for what, get, exp in expect:
@@ -221,6 +222,25 @@ def run_concat(case, rec):
                 rec.check("C11.completed-op-missing", got == exp, op="concat:" + variant, cls=case["op"] if len(expect) == 1 else "several", attr=what.split(".")[-1].split(" ")[-1], detail=f"{what}: completed before the close as {short(exp)}, a fresh reader sees {short(got)}")
         finally:
             reader.close()
+        if old_hole is not None and case["extra"] == 0:
+            # the workspace is opened again and a hole obtained before the close is used: what is done through it counts
+            try:
+                ws.open(mode="r+")
+                old_hole.cost = 4321.0
+                uid_old = old_hole.uid
+                old_hole = None
+                ws.close()
+                with Workspace(path, mode="r") as r2:
+                    got = r2.get_entity(uid_old)[0]
+                    rec.check("C11.completed-op-missing", got is not None and got.cost == 4321.0, op="concat:" + variant + ":old-handle-after-reopen", cls="ConcatenatedDrillhole", attr="cost", detail=f"cost set to 4321.0 through a hole obtained before the close (workspace re-opened in between); a fresh reader sees {None if got is None else got.cost}")
+                rec.see("edits-through-concatenated-handles-from-before-the-close")
+            except Exception as exc:  # noqa: BLE001
+                from ..core import exc_origin
+
+                if not exc_origin(exc)[0]:
+                    raise
+                rec.see("old-concatenated-handle-edit-refused:" + type(exc).__name__)
+        old_hole = None
         rec.nontrivial = len(expect) >= 1
         rec.shape = ["concat", variant, case["op"], case["extra"], case["version"]]
         rec.sample = {"variant": "concat:" + variant, "ops": [e[0] for e in expect]}
